@@ -463,6 +463,8 @@ for _id, _prop, _rule, _desc, _eb in [
     ("c17-positive-offset-dropped", "C17", "R17.7", "add_time_offset ignoring a non-negative offset", False),
     ("c07-head-not-consumed", "C07", "R07.14", "read_cbor_type that does not move the cursor past the head", False),
     ("c07-chunk-bytes-dropped", "C07", "R07.9", "read_string skipping the bytes of the chunks of an indefinite-length string", False),
+    ("c18-registration-skips-index-0", "C18", "R18.1", "cdns-merge pass 1 registering the parameter sets of later inputs from index 1 on", False),
+    ("c18-total-starts-at-one", "C18", "R18.4", "cdns-itemcount whose query-response total starts at 1", False),
     ("c19-memo-not-reset", "C19", "R19.2", "ip-address lookup memo (C12g/3) that CdnsBlock::operator= does not reset", False),
     ("c16-guard-armed-early", "C16", "R16.6", "BlockClearGuard (C12g/2) armed before the write it guards", False),
     ("c16-guard-armed-early-c12", "C12", "R12.4", "BlockClearGuard (C12g/2) armed before the write it guards", False),
